@@ -136,6 +136,87 @@ theorem containment_to_edge (f t : String) (fo too : Orient) (pos nt : Nat) (c :
     isWhole nt e.b2 e.e2 = true ∧ e.b1 = pos ∧ e.e1 - e.b1 = c.refLen := by
   simp [edgeOfContainment, isWhole]
 
+/-- **C → E → C is the identity**: a containment (container `f`, contained `t`, offset `pos`) converted to an E line and
+    back is the same containment — same oriented pair, same overlap (not complemented), same offset -/
+theorem c_e_c (f t : String) (fo too : Orient) (pos nf nt : Nat) (c : Cigar)
+    (h1 : pos + c.refLen ≤ nf) (h2 : 0 < nt) (h3 : 0 < nf) :
+    gfa1OfEdge (edgeOfContainment f fo t too pos c nt) nf nt = some (.C, ⟨f, fo, t, too, .cigar c⟩, pos) := by
+  have hv1 : ValidIv nf pos (pos + c.refLen) := ⟨by omega, h1, h3⟩
+  have hv2 : ValidIv nt 0 nt := ⟨by omega, by omega, h2⟩
+  simp only [gfa1OfEdge, edgeOfContainment]
+  rw [substring_type_spec _ _ _ hv1, substring_type_spec _ _ _ hv2]
+  simp only
+  have hat := alignment_type_matches_geometry fo too nf pos (pos + c.refLen) nt 0 nt hv1 hv2
+  have hc : isContainment nf pos (pos + c.refLen) nt 0 nt = true := by simp [isContainment, isWhole]
+  rw [hc] at hat
+  simp only [if_true] at hat
+  rw [hat]
+  have hfrom := is_sid1_from_spec fo too nf pos (pos + c.refLen) nt 0 nt hv1 hv2
+  have hsf : sid1IsFrom fo too nf pos (pos + c.refLen) nt 0 nt = some true := by simp [sid1IsFrom, isWhole]
+  rw [hsf] at hfrom
+  cases hr : isSid1From (segmentRole (Pos.mk pos nf) (Pos.mk (pos + c.refLen) nf) fo)
+      (segmentRole (Pos.mk 0 nt) (Pos.mk nt nt) too) with
+  | error e => rw [hr] at hfrom; simp [Except.toOption] at hfrom
+  | ok b =>
+    rw [hr] at hfrom
+    simp only [Except.toOption, Option.some.injEq] at hfrom
+    subst hfrom
+    simp only [mk_isFirst, mk_isLast]
+    by_cases hp : pos = 0
+    · simp [hp]
+    · simp [hp]
+
+/-- **E → L → E is the identity** for a dovetail E line written from-side first whose intervals have the lengths its
+    alignment implies: the link it converts to converts back to the same E line (same sides, same intervals, same
+    alignment) -/
+theorem e_l_e (e : Edge) (n1 n2 : Nat) (hv1 : ValidIv n1 e.b1 e.e1) (hv2 : ValidIv n2 e.b2 e.e2)
+    (hnw1 : isWhole n1 e.b1 e.e1 = false) (hnw2 : isWhole n2 e.b2 e.e2 = false)
+    (hend : touchesEnd e.o1 n1 e.b1 e.e1 = true) (hstart : touchesStart e.o2 n2 e.b2 e.e2 = true)
+    (hl1 : e.e1 - e.b1 = e.aln.refLen) (hl2 : e.e2 - e.b2 = e.aln.queryLen) :
+    edgeOfLink e.s1 e.o1 e.s2 e.o2 e.aln n1 n2 = e := by
+  obtain ⟨h11, h12, h13⟩ := hv1
+  obtain ⟨h21, h22, h23⟩ := hv2
+  cases e with
+  | mk s1 o1 s2 o2 b1 e1 b2 e2 aln =>
+    simp only at *
+    simp only [edgeOfLink, fromCoords, toCoords, Edge.mk.injEq, true_and]
+    cases o1 <;> cases o2 <;> simp only [touchesEnd, touchesStart, beq_iff_eq] at hend hstart <;>
+      simp <;> omega
+
+/-- … and such an E line converts to the link `s1 o1 → s2 o2` with its own alignment (read from sid1 to sid2), so that
+    **E → L → E is the identity** -/
+theorem e_to_l (e : Edge) (n1 n2 : Nat) (hv1 : ValidIv n1 e.b1 e.e1) (hv2 : ValidIv n2 e.b2 e.e2)
+    (hnw1 : isWhole n1 e.b1 e.e1 = false) (hnw2 : isWhole n2 e.b2 e.e2 = false)
+    (hend : touchesEnd e.o1 n1 e.b1 e.e1 = true) (hstart : touchesStart e.o2 n2 e.b2 e.e2 = true) :
+    (gfa1OfEdge e n1 n2).map (fun r => (r.1, r.2.1)) = some (.L, ⟨e.s1, e.o1, e.s2, e.o2, .cigar e.aln⟩) := by
+  simp only [gfa1OfEdge]
+  rw [substring_type_spec _ _ _ hv1, substring_type_spec _ _ _ hv2]
+  simp only
+  have hat := alignment_type_matches_geometry e.o1 e.o2 n1 e.b1 e.e1 n2 e.b2 e.e2 hv1 hv2
+  have hnc : isContainment n1 e.b1 e.e1 n2 e.b2 e.e2 = false := by simp [isContainment, hnw1, hnw2]
+  have hd : isDovetail e.o1 e.o2 n1 e.b1 e.e1 n2 e.b2 e.e2 = true := by simp [isDovetail, hnw1, hnw2, hend, hstart]
+  rw [hnc, hd] at hat
+  simp only [Bool.false_eq_true, if_false, if_true] at hat
+  rw [hat]
+  have hfrom := is_sid1_from_spec e.o1 e.o2 n1 e.b1 e.e1 n2 e.b2 e.e2 hv1 hv2
+  have hns1 : touchesStart e.o1 n1 e.b1 e.e1 = false := by
+    cases ho : e.o1 <;> simp only [ho, touchesEnd, touchesStart, isWhole, beq_iff_eq, Bool.and_eq_false_iff] at hend hnw1 ⊢ <;>
+      rcases hnw1 with h | h <;> simp_all
+  have hne2 : touchesEnd e.o2 n2 e.b2 e.e2 = false := by
+    cases ho : e.o2 <;> simp only [ho, touchesEnd, touchesStart, isWhole, beq_iff_eq, Bool.and_eq_false_iff] at hstart hnw2 ⊢ <;>
+      rcases hnw2 with h | h <;> simp_all
+  have hsf : sid1IsFrom e.o1 e.o2 n1 e.b1 e.e1 n2 e.b2 e.e2 = some true := by
+    simp [sid1IsFrom, hnw1, hnw2, hend, hstart, hns1, hne2]
+  rw [hsf] at hfrom
+  cases hr : isSid1From (segmentRole (Pos.mk e.b1 n1) (Pos.mk e.e1 n1) e.o1)
+      (segmentRole (Pos.mk e.b2 n2) (Pos.mk e.e2 n2) e.o2) with
+  | error err => rw [hr] at hfrom; simp [Except.toOption] at hfrom
+  | ok b =>
+    rw [hr] at hfrom
+    simp only [Except.toOption, Option.some.injEq] at hfrom
+    subst hfrom
+    simp
+
 -- non-vacuity
 example : (gfa1OfEdge (edgeOfLink "A" .minus "B" .plus [⟨2, .M⟩, ⟨1, .D⟩, ⟨3, .M⟩] 10 8) 10 8).map (·.2.1) =
     some ⟨"A", .minus, "B", .plus, .cigar [⟨2, .M⟩, ⟨1, .D⟩, ⟨3, .M⟩]⟩ := by decide
